@@ -12,7 +12,12 @@ def declare(spec):
         'naps': REAL,              # total sleep requested by the kill_process instance owning it
         'alive_seen': REAL,        # value of naps when is_alive() last returned True
         'closed': BOOL,            # output pipes closed (Process.stop)
+        # configuration the worker is started with (C13 / C07) and the psutil handle (C18)
+        'working_dir': VAL, 'shell': VAL, 'env': VAL, 'use_fds': BOOL, 'executable': VAL,
+        'pipe_stdout': BOOL, 'pipe_stderr': BOOL, '_sockets': VAL, 'cmd': VAL, '_worker': Ref('PsProc'),
+        'redirected': BOOL,
     })
+    spec.Class('PsProc', fields={'pid': INT})
     spec.Class('Redirector', qual='circus.stream.redirector:Redirector', fields={})
     spec.ghost('K_alive', Set(INT))        # kernel: pids of live (not yet dead) children
     spec.ghost('siglog', List(SIGEV))      # every signal actually handed to the kernel
